@@ -217,6 +217,11 @@ def find(
                 if include_file:
                     state.insert_file(include_file)
                     state.associate(include_file, file_platform)
+                else:
+                    log.warning(
+                        f"{e['file']}: user include '{include}' not found "
+                        + "(requested with -include)",
+                    )
 
             # Process the file, to build a list of associate nodes
             state.associate(e["file"], file_platform)
